@@ -48,7 +48,7 @@ def run(ck, facts, tier):
     r2 = ck.rule("R13.2", "siblings agree: the generic (dsolve21_, dsolve_upper21_) and float-matrix (fdsolve21_, fdsolve_upper21_) implementations have the same loop nest "
                           "and, after normalisation (compound assignment, T::zero() = 0, (1/u)*v = v/u), the same ordered update statements on A, b and x", floor=3)
     r1 = ck.rule("R13.1", "swap pairing: in both eliminations row_swap(A, j, k) is immediately followed by el_swap(b, j, k) with the same (j, k), both under j != k, with "
-                          "k = argabsmax(A[j.., j]) + j (partial pivoting on the column below the diagonal); argabsmax compares absolute values", floor=5)
+                          "k = argabsmax(A[j.., j]) + j (partial pivoting on the column below the diagonal); argabsmax compares absolute values; row_swap / el_swap exchange whole rows / elements", floor=7)
     for fn in (LD + "dsolve21_", LF + "fdsolve21_"):
         r = facts.fn(fn)
         A, B = mk()
@@ -103,6 +103,21 @@ def run(ck, facts, tier):
         if rs and es:
             later = [w for w in A.writes + B.writes if w.get("seq", 0) < rs[0]["seq"]]
             ck.check(r1, name + ":swap-first", not later, "an update of the system precedes the pivot swap within a pivot step", where, sample="swap is the first statement of a pivot step")
+    # the swap helpers exchange whole rows / single elements: the slice they split is the full array (every dimension `..`), split along axis 0 at the lower index
+    for nm, ndim in (("row_swap", 2), ("el_swap", 1)):
+        rr = facts.fn(LD + nm)
+        okh, whyh = False, "helper not found"
+        if rr:
+            es_ = list(hir.walk(rr["body"]))
+            fulls = [e for e in es_ if e.get("k") == "struct" and (e.get("ty") or e.get("adt") or "").endswith("ops::RangeFull")]
+            other = [e for e in es_ if e.get("k") in ("struct", "call", "mcall", "range") and any(t in ((e.get("ty") or "") + (e.get("adt") or "") + ((e.get("f") or {}).get("def") or ""))
+                                                                                                 for t in ("ops::Range<", "ops::RangeFrom", "ops::RangeTo", "ops::RangeInclusive", "Range::<"))]
+            convs = [e for e in es_ if e.get("k") == "call" and (e["f"].get("def") or "").endswith("convert::From::from")]
+            splits = [e for e in es_ if e.get("k") == "mcall" and e["m"] == "split_at"]
+            swaps = [e for e in es_ if e.get("k") == "path" and (e.get("def") or "").endswith("mem::swap")]
+            okh = len(fulls) == ndim and len(convs) == ndim and not other and len(splits) == 1 and len(swaps) == 1
+            whyh = "%s does not split the FULL array (%d `..` dimensions of %d; other ranges: %d) at axis 0 and swap with mem::swap" % (nm, len(fulls), ndim, len(other))
+        ck.check(r1, nm + ":whole", okh, whyh, "%s:%d" % (rr["file"], rr["line"]) if rr else None, sample="slice_mut(s![%s]).split_at(Axis(0), k); swap" % ", ".join([".."] * ndim))
     am = facts.fn(LD + "argabsmax")
     okm = False
     if am:
